@@ -110,8 +110,9 @@ class AsyncioEventLoop(EventLoop):
         Call all the registered idle callbacks.
         """
         try:
-            for callback in self._idle_callbacks.values():
-                callback()
+            for handle, callback in list(self._idle_callbacks.items()):
+                if handle in self._idle_callbacks:  # not removed by a previous idle callback
+                    callback()
         finally:
             self._idle_asyncio_handle = None
 
